@@ -1,3 +1,4 @@
 import Driver.Loop
 import GunYu.Drive.C06
-def main : IO Unit := Driver.run [GunYu.Drive.C06.handle]
+import GunYu.Drive.C06Att
+def main : IO Unit := Driver.run [GunYu.Drive.C06.handle, GunYu.Drive.C06Att.handle]
